@@ -254,6 +254,13 @@ class ModuleAddMethod(AddBase):
     def _frozen(self, st0, a):
         return st0.heap.get("Module._elaborated", a.self.z) != NULL
 
+    def _reserved(self, st0, a):
+        """the name the object would go under is one of the module's own attributes (C18: reserved names are rejected
+        by add() as they are by assignment)"""
+        from hdl21.module import _banned
+        name = st0.heap.get("name", a.val.z) if a.name is None else zstr(a.name)
+        return z3.And(z3.Not(self._badnames(st0, a)), z3.Or([name == z3.StringVal(b) for b in _banned]))
+
     def p_view(self, eng, st0, st, a, res):
         m, v = a.self.z, a.val.z
         name = st0.heap.get("name", v) if a.name is None else zstr(a.name)
@@ -264,10 +271,11 @@ class ModuleAddMethod(AddBase):
     posts = property(lambda self: [("view", self.p_view),
                                    ("inv_ns", lambda eng, st0, st, a, res: inv_ns(st, a.self.z))])
     reasons = property(lambda self: {
-        RuntimeError: lambda eng, st0, a: z3.Or(self._badnames(st0, a), self._frozen(st0, a)),
+        RuntimeError: lambda eng, st0, a: z3.Or(self._badnames(st0, a), self._frozen(st0, a), self._reserved(st0, a)),
         TypeError: lambda eng, st0, a: not self._is_attr(eng, st0, a)})
     must_raise = property(lambda self: [
         ("name-sources", lambda eng, st0, a: z3.And(self._is_attr(eng, st0, a), self._badnames(st0, a))),
+        ("reserved-name", lambda eng, st0, a: z3.And(self._is_attr(eng, st0, a), self._reserved(st0, a))),
         ("elaborated", lambda eng, st0, a: self._frozen(st0, a)),
         ("non-attr", lambda eng, st0, a: not self._is_attr(eng, st0, a))])
 
